@@ -30,3 +30,55 @@ def direction_flags(ctx, P, rule, module):
                       "%s calls %s with is_request = %s: a %s is classified with the %s optional / skip-value / common header lists, so its derived signature "
                       "differs from what the same headers define" % (b.name, callee.name, val, "request" if is_req else "response", "response" if is_req else "request"), ctx.loc(b, blk))
     ctx.floor(rule, "%s: helper calls carrying is_request" % module, n, 4)
+
+
+def exclusive_pushes(ctx, P, rule, path):
+    """each header yields exactly one entry of the header order: the pushes of the per-header loop are mutually exclusive"""
+    from ..engine import cfg as C
+    b = P.body(path)
+    loops = C.loops(b)
+    pushes = [blk for blk, t in b.calls() if callee_of(t).endswith("Vec::<T, A>::push")]
+    bad = None
+    for h, blks in loops.items():
+        inl = [p for p in pushes if p in blks]
+        for p in inl:
+            seen, todo = set(), [s for s in b.succs(p)]
+            while todo:
+                x = todo.pop()
+                if x in seen or x == h or x not in blks:
+                    continue
+                seen.add(x)
+                if x in inl and x != p:
+                    bad = (p, x)
+                    break
+                todo.extend(b.succs(x))
+            if bad:
+                break
+    name = path.rsplit("::", 1)[-1]
+    ctx.check(bad is None and len(pushes) >= 3, rule, name + ":one-entry-per-header", "the %d pushes of the header loop are mutually exclusive" % len(pushes),
+              "%s can push two entries for one header (a path leads from one push to another within the same iteration): a header on the optional list appears as `?name` "
+              "and again as `name=[value]` in the derived signature" % name, ctx.loc(b, bad[0]) if bad else ctx.loc(b))
+
+
+def split_literals(ctx, P, rule, b, label):
+    """cookie and referer are split out of the header list under exactly these (lower-case) names"""
+    S = T.Slicer(b, P)
+    lits = set()
+    for blk, t in b.calls():
+        if not callee_of(t).endswith("Vec::<T, A>::push"):
+            continue
+        for c in Q.canon_conds(P, T.dom_conds(b, S, blk)):
+            if c[0] == "cmp" and c[1] == "Eq":
+                for side in (c[2], c[3]):
+                    ss = T.strip(side)
+                    if ss[0] == "const" and isinstance(ss[1], str):
+                        lits.add((ss[1], c[4]))
+            if c[0] == "bool" and c[1][0] == "call" and c[1][1].endswith("::eq"):
+                for a in c[1][2]:
+                    ss = T.strip(a)
+                    if ss[0] == "const" and isinstance(ss[1], str):
+                        lits.add((ss[1], c[2]))
+    names = {l for l, _ in lits}
+    ctx.check({"cookie", "referer"} <= names and names <= {"cookie", "referer"}, rule, label + ":cookie-referer-split",
+              "cookie / referer split out under their own names", "the header names that are split out of the header list are %s (expected exactly `cookie` and `referer`): the field is "
+              "reported in the wrong place (e.g. the referer stays in the header list and `referer` is None)" % sorted(names), ctx.loc(b))
